@@ -298,7 +298,7 @@ func execChain(f []string) string {
 	for i, blk := range blocks {
 		_, orphan, err := ch.ProcessBlock(blk, blockchain.BFNone)
 		if err != nil || orphan {
-			return fmt.Sprintf("build-err block %d: %v", i+1, err)
+			return fmt.Sprintf("build-err block %d", i+1)
 		}
 	}
 	// a competing block at the tip height (same work, seen second): stored, indexed, but not in the main chain
@@ -309,7 +309,7 @@ func execChain(f []string) string {
 		alt[len(alt)-1] = cBlock{cTx{outs: []cOut{{amt: 1, script: []byte{0x53}}}}}
 		side = buildBlocks(params, alt)[len(alt)-1]
 		if _, _, err := ch.ProcessBlock(side, blockchain.BFNone); err != nil {
-			return fmt.Sprintf("build-err side block: %v", err)
+			return "build-err side block"
 		}
 	}
 	if err := ch.FlushUtxoCache(blockchain.FlushRequired); err != nil {
